@@ -24,7 +24,7 @@ import EmbitModel.Driver.Keys
 namespace Embit.Props.C10Y
 open Embit Embit.Keys Embit.Spec
 
-variable {E : EcOps}
+variable {E : Keys.EcOps}
 
 /-! ### Base58 (no checksum): both directions for the concrete layer -/
 
